@@ -31,13 +31,17 @@ NUM_RX = rb"(?<![\w.])-?\d+(?:\.\d+)?(?:[eE][-+]?\d+)?(?![\w.])"
 QINT_RX = rb'(?<=")\d+(?=")'
 IDATTR_RX = rb'(?i)(?<=id=")\d+(?=")'  # id="..", objectid="..", pid=".." ...
 REF_RX = rb"[\w\-./]*\w\.(?:mtl|png|jpe?g|bin|gltf|obj|stl|ply|xml|3DRep)\b"
+STMT_RX = rb"#\d+\s*=[^;]*;[ \t\r]*\n?"  # one entity of an ISO 10303-21 (STEP) exchange file
+HASHID_RX = rb"#\d+"  # entity names: definitions and references
+LINE_RX = rb"[^\n]*\n"
 
 
 def tokens_of(data, kind):
     import re
 
-    rx = {"num": NUM_RX, "qint": QINT_RX, "ref": REF_RX, "idattr": IDATTR_RX}[kind]
-    return list(re.finditer(rx, data[: (1 << 20) if kind in ("idattr", "ref") else 8192]))
+    rx = {"num": NUM_RX, "qint": QINT_RX, "ref": REF_RX, "idattr": IDATTR_RX, "stmt": STMT_RX, "hashid": HASHID_RX,
+          "line": LINE_RX}[kind]
+    return list(re.finditer(rx, data[: 8192 if kind in ("num", "qint") else (1 << 20)]))
 
 
 def split_json(data):
@@ -166,6 +170,11 @@ def mutate(data: bytes, op: str, args, self_name=None) -> bytes:
             return data
         m = toks[k]
         return data[: m.start()] + text.encode() + data[m.end():]
+    if op == "grow":  # a well-formed file of one family with one structural dimension scaled to n (vmon/gen/grown.py)
+        ext, family, size = args
+        from vmon.gen import grown
+
+        return grown.make(ext, family, size)
     if op == "repeat":  # one chunk of a valid file repeated n times (many solids / objects / records)
         a, b, n = args
         return data[:a] + data[a:b] * int(n) + data[b:]
@@ -176,6 +185,12 @@ def mutate(data: bytes, op: str, args, self_name=None) -> bytes:
             return data
         m = toks[k]
         return data[: m.start()] + toks[j].group() + data[m.end():]
+    if op == "tokdel":  # token k removed (one line, one statement: what it defined is now referenced but undefined)
+        kind, k = args
+        toks = tokens_of(data, kind)
+        if k >= len(toks):
+            return data
+        return data[: toks[k].start()] + data[toks[k].end():]
     if op == "ref":  # the k-th asset reference (file name / uri) replaced by another target
         k, text = args
         toks = tokens_of(data, "ref")
@@ -355,6 +370,10 @@ def main():
         raise CaseTimeout()
 
     signal.signal(signal.SIGVTALRM, on_timer)
+    # native code that never returns to the interpreter cannot be interrupted by a Python handler: a second
+    # timer on the CPU time of the whole process (all threads), with the default action, ends the child at
+    # 2x the bound; the parent reads the signal as the CPU verdict of the case that was running
+    signal.signal(signal.SIGPROF, signal.SIG_DFL)
     hard_as = resource.getrlimit(resource.RLIMIT_AS)[1]
 
     entries = {
@@ -373,7 +392,9 @@ def main():
             continue
         n = len(data)
         cpu_limit = job["cpu_base"] + job["cpu_per_byte"] * n
-        as_cap = vm_size() + max(job["as_base"], job["as_per_byte"] * n)
+        # a loader that runs a pool of native threads reserves address space per thread (stacks, malloc
+        # arenas) without using memory: its seeds carry their own constant term; peak RSS is bounded as ever
+        as_cap = vm_size() + max(job["seeds"][sidx].get("as_base") or job["as_base"], job["as_per_byte"] * n)
         out.write(json.dumps({"id": cid, "phase": "start", "len": n}) + "\n")
         path = None
         if via in ("path", "path_ft", "pathlib"):
@@ -395,7 +416,11 @@ def main():
         except Exception:
             pass
         t0 = time.process_time()
-        signal.setitimer(signal.ITIMER_VIRTUAL, cpu_limit * 1.5 + 0.5)
+        # a hang is interrupted at 1.5x the bound (what ends between 1x and 1.5x reports its own time); a grown
+        # file that breaks the bound by design of its family is not worth the extra half: 1.2x (the timer is
+        # charged by clock ticks and was seen to fire 6 % early on a loaded machine)
+        signal.setitimer(signal.ITIMER_VIRTUAL, cpu_limit * 1.2 + 0.25 if op == "grow" else cpu_limit * 1.5 + 0.5)
+        signal.setitimer(signal.ITIMER_PROF, cpu_limit * 2.0 + 2.0)
         mon.begin()
         outcome, detail, site = None, None, None
         try:
@@ -413,7 +438,7 @@ def main():
             outcome, detail = "geometry", describe(res)
             del res
         except CaseTimeout as e:
-            outcome, detail = "cpu_timeout", "interrupted after %.2fs cpu" % (time.process_time() - t0)
+            outcome, detail = "cpu_timeout", "interrupted after %.2fs cpu (bound %.2fs)" % (time.process_time() - t0, cpu_limit)
             site = site_of(e)
         except MemoryError as e:
             outcome, detail = "memory_error", type(e).__name__ + ": " + str(e)[:200]
@@ -426,6 +451,7 @@ def main():
             outcome, detail = "base_exception", type(e).__name__
         finally:
             signal.setitimer(signal.ITIMER_VIRTUAL, 0)
+            signal.setitimer(signal.ITIMER_PROF, 0)
             try:
                 resource.setrlimit(resource.RLIMIT_AS, (hard_as, hard_as))
             except Exception:
